@@ -407,3 +407,117 @@ Proof.
   - apply handle_ph_loop_total; exact H.
   - apply okT_ret. intros _. exact H.
 Qed.
+
+(** * Replayed headers *)
+
+(** [handle_replay], restructured into named pieces (definitionally the same function). *)
+Definition replay_jumped (s0 : kstate) (cp : cproof) : kstate :=
+  jump_until (N.to_nat (cp_round cp - v_r (k_vot s0))) s0 (cp_round cp).
+
+Definition replay_temp (s : kstate) (hd : hdr) (cp : cproof) : pmap * bool :=
+  fold_left (fun acc e =>
+      let '(tm, av) := acc in
+      let base := match pm_get (v_pc (k_vot s)) (fst e) with Some p => p | None => [] end in
+      let '(p', a, _) := merge_sparse KPrecommit (hd_height hd) (cp_round cp) (fst e) (vs_keys (hd_vals hd)) base (snd e) in
+      (pm_set tm (fst e) p', av && a)) (cp_proofs cp) ([], true).
+
+Definition replay_finish (s1 : kstate) (hd : hdr) (cp : cproof) (temp : pmap) : res (kstate * N) :=
+  match pm_get temp (hd_hash hd) with
+  | None => Ok (s1, 2)
+  | Some hp =>
+      bind (byz_majority (sm_avail (v_sum (k_vot s1)))) (fun maj =>
+      if proof_power (vs_pows (hd_vals hd)) hp <? maj then Ok (s1, 2) else
+      let v := k_vot s1 in
+      let pc' := fold_left (fun m e => pm_set m (fst e) (snd e)) temp (v_pc v) in
+      let v1 := with_pc v pc' in
+      let v2 := with_sum v1 (sum_set_precommits (v_sum v1) (vs_pows (v_vals v1)) pc') in
+      let coll := map_to_sparse (vs_pkh (v_vals v2)) pc' in
+      let s2 := log_w (set_rounds (set_vot s1 v2) (rs_overwrite_pc (st_rounds s1) (hd_height hd) (cp_round cp) coll))
+                      (WPC (hd_height hd) (cp_round cp) coll) in
+      bind (check_voting_precommit_shift s2) (fun s3 => Ok (s3, 0)))
+  end.
+
+Definition site_replay_earlier : string := "handleReplayedHeader: TODO: handle replay for earlier round".
+Definition site_replay_fuel : string := "model: out of fuel in the replay round jump".
+Definition site_replay_refused : string :=
+  "mainLoop: TODO: handle internal error from handling replayed block (round store refused the replayed header)".
+
+Definition handle_replay' (s0 : kstate) (hd : hdr) (cp : cproof) : res (kstate * N) :=
+  if negb (hd_height hd =? v_h (k_vot s0)) then Ok (s0, 1)
+  else if cp_round cp <? v_r (k_vot s0) then Panic site_replay_earlier
+  else
+  let s := replay_jumped s0 cp in
+  if negb ((v_r (k_vot s) =? cp_round cp) && (v_h (k_vot s) =? hd_height hd)) then Panic site_replay_fuel else
+  if negb (hd_ok hd) then Ok (s, 2)
+  else if negb (hd_height hd =? k_init_h s) && negb (bytes_eqb (hd_prev hd) (chdr_hash s)) then Ok (s, 2)
+  else if negb (valset_equal (hd_vals hd) (v_vals (k_vot s)) && vs_ok (hd_vals hd)) then Ok (s, 2)
+  else if negb (vs_ok (hd_next hd)) then Ok (s, 2)
+  else
+  let '(temp, allv) := replay_temp s hd cp in
+  if negb allv then Ok (s, 2) else
+  bind (replay_insert s hd (cp_round cp)) (fun s1 => replay_finish s1 hd cp temp).
+
+Lemma handle_replay_eq s0 hd cp : handle_replay s0 hd cp = handle_replay' s0 hd cp.
+Proof. reflexivity. Qed.
+
+(** ** The guards of the two Panic sites a replayed header can reach *)
+
+(** site 1: the header is for the voting height but for a round the mirror has already left *)
+Definition replay_earlier_guard (s0 : kstate) (hd : hdr) (cp : cproof) : bool :=
+  (hd_height hd =? v_h (k_vot s0)) && (cp_round cp <? v_r (k_vot s0)).
+
+(** all validation checks of the replayed header and its commit proof pass (in the state [s]
+    reached by jumping to the proof's round) *)
+Definition replay_checks (s : kstate) (hd : hdr) (cp : cproof) : bool :=
+  hd_ok hd &&
+  negb (negb (hd_height hd =? k_init_h s) && negb (bytes_eqb (hd_prev hd) (chdr_hash s))) &&
+  (valset_equal (hd_vals hd) (v_vals (k_vot s)) && vs_ok (hd_vals hd)) &&
+  vs_ok (hd_next hd) &&
+  snd (replay_temp s hd cp).
+
+(** the voting view does not know the header's hash, but the round store holds a proposed header
+    with that hash in SOME round of the height: SaveRoundReplayedHeader refuses it *)
+Definition replay_store_refuses (s : kstate) (hd : hdr) : bool :=
+  negb (existsb (fun p => bytes_eqb (hd_hash (ph_hdr p)) (hd_hash hd)) (v_phs (k_vot s))) &&
+  existsb (fun x => let '(h', _, e) := x in
+                    (h' =? hd_height hd) && existsb (fun p => bytes_eqb (hd_hash (ph_hdr p)) (hd_hash hd)) (re_phs e))
+          (st_rounds s).
+
+(** site 3 *)
+Definition replay_refused_guard (s0 : kstate) (hd : hdr) (cp : cproof) : bool :=
+  (hd_height hd =? v_h (k_vot s0)) && (v_r (k_vot s0) <=? cp_round cp) &&
+  replay_checks (replay_jumped s0 cp) hd cp && replay_store_refuses (replay_jumped s0 cp) hd.
+
+(** ** The jump loop reaches the replayed round (site 2, "out of fuel", is unreachable) *)
+Lemma jump_round ih ivs s : cinv ih ivs s -> v_r (k_vot s) + 1 < two32 ->
+  v_r (k_vot (jump_voting_round s)) = v_r (k_vot s) + 1 /\
+  v_h (k_vot (jump_voting_round s)) = v_h (k_vot s).
+Proof.
+  intros (_&_&_&Hnh&Hnr&_) Hb.
+  unfold jump_voting_round, update_observers, increment_voting_round. cbn [k_vot set_vot set_nxt ev_w log_w set_nhr v_r v_h bump].
+  rewrite Hnr, Hnh. split; [|reflexivity]. unfold wrap32. apply N.mod_small. exact Hb.
+Qed.
+
+Lemma jump_until_reaches ih ivs fuel : forall s r,
+  cinv ih ivs s -> v_r (k_vot s) <= r -> r < two32 ->
+  (N.to_nat (r - v_r (k_vot s)) <= fuel)%nat ->
+  v_r (k_vot (jump_until fuel s r)) = r /\ v_h (k_vot (jump_until fuel s r)) = v_h (k_vot s).
+Proof.
+  induction fuel as [|f IH]; intros s r H Hle Hr Hf; cbn [jump_until].
+  - split; [lia|reflexivity].
+  - destruct (N.ltb_spec (v_r (k_vot s)) r) as [Hlt|Hge]; [|split; [lia|reflexivity]].
+    destruct (jump_round ih ivs s H) as [E1 E2]; [lia|].
+    destruct (IH (jump_voting_round s) r (cinv_jump _ _ _ H)) as [F1 F2]; [lia|lia|lia|].
+    split; [exact F1|congruence].
+Qed.
+
+Lemma replay_jumped_reaches ih ivs s0 cp :
+  cinv ih ivs s0 -> v_r (k_vot s0) <= cp_round cp -> cp_round cp < two32 ->
+  v_r (k_vot (replay_jumped s0 cp)) = cp_round cp /\ v_h (k_vot (replay_jumped s0 cp)) = v_h (k_vot s0).
+Proof. intros H Hle Hb. apply (jump_until_reaches ih ivs); try assumption. lia. Qed.
+
+Lemma tinv_jump_until fuel : forall s r, tinv s -> tinv (jump_until fuel s r).
+Proof.
+  induction fuel as [|f IH]; intros s r H; cbn [jump_until]; [exact H|].
+  destruct (_ <? _); [|exact H]. apply IH. split; [apply aok_jump, H|apply pok_jump, H].
+Qed.
